@@ -60,7 +60,7 @@ ANCHORS = ['pfhedge.stochastic._utils:cast_state',
            'pfhedge.instruments.primary.base:BasePrimary.register_buffer']
 PYTEST_WORKLOAD = True  # thorough tier also runs /repo/tests with these passive monitors attached (DESIGN.md 2.7)
 DECIDING = ["generator.post", "simulate.post"]
-REQUIRED_BRANCHES = ["dtype.float64_under_float32_default", "init.non_default", "resimulate.changed_shape", "n_steps=1", "regime.low_variance"]
+REQUIRED_BRANCHES = ["dtype.float64_under_float32_default", "init.non_default", "resimulate.changed_shape", "n_steps=1", "regime.low_variance", "engine.antithetic_or_sobol.odd_paths"]
 
 _CTX = None
 GENS = ["generate_brownian", "generate_geometric_brownian", "generate_cir", "generate_heston", "generate_vasicek", "generate_merton_jump",
@@ -323,6 +323,10 @@ def drv_generators(ctx, k, rng):
     if regime == "low_variance":
         ctx.branch("regime.low_variance")
     fn = getattr(ST, name)
+    if name in ("generate_brownian", "generate_geometric_brownian", "generate_merton_jump", "generate_kou_jump") and not half and rng.random() < 0.4:
+        # the documented alternative engines: the shape promise holds for every path count, odd ones and a single path included
+        kw["engine"] = pick(rng, [ST.randn_antithetic, ST.randn_sobol_boxmuller])
+        ctx.branch("engine.antithetic_or_sobol" + (".odd_paths" if n_paths % 2 else ""))
     try:
         if name == "generate_brownian":
             if nondefault:
@@ -400,6 +404,8 @@ def make_prim(rng, kind, dtype):
         return CIRRate(kappa=float(pick(rng, [1.0, 0.3])), theta=float(pick(rng, [0.04, 0.01])), sigma=float(pick(rng, [0.2, 1.0])), **kw)
     if kind == "vasicek":
         return VasicekRate(kappa=float(pick(rng, [1.0, 3.0])), theta=float(pick(rng, [0.04, -0.01])), sigma=0.04, **kw)
+    if kind in ("merton", "kou") and rng.random() < 0.4:
+        kw["engine"] = pick(rng, [ST.randn_antithetic, ST.randn_sobol_boxmuller])
     if kind == "merton":
         return MertonJumpStock(jump_per_year=float(pick(rng, [0.0, 68.0])), **kw)
     if kind == "kou":
